@@ -90,12 +90,34 @@ pub fn print(secs: i64, lang: &str) -> String {
 }
 
 /// all spellings of a unit in a language, from config.json
+/// the spellings of the pinned configuration, written by hand: a spelling that disappears from
+/// config.json (or stops being derived from it) is still exercised
+fn pinned_spellings(lang: &str, u: Unit) -> &'static [&'static str] {
+    match (lang, u) {
+        ("en", Unit::Second) => &["second", "seconds"],
+        ("en", Unit::Minute) => &["minute", "minutes"],
+        ("en", Unit::Hour) => &["hour", "hours"],
+        ("en", Unit::Day) => &["day", "days"],
+        ("en", Unit::Week) => &["week", "weeks"],
+        ("en", Unit::Month) => &["month", "months"],
+        ("en", Unit::Year) => &["year", "years"],
+        ("tr", Unit::Second) => &["saniye"],
+        ("tr", Unit::Minute) => &["dakika"],
+        ("tr", Unit::Hour) => &["saat"],
+        ("tr", Unit::Day) => &["gün", "gun"],
+        ("tr", Unit::Week) => &["hafta"],
+        ("tr", Unit::Month) => &["ay"],
+        ("tr", Unit::Year) => &["yıl", "yil"],
+        _ => &[],
+    }
+}
+
 pub fn spellings(lang: &str, u: Unit) -> Vec<String> {
     let sp = crate::spec::spec();
-    let mut v = Vec::new();
+    let mut v: Vec<String> = pinned_spellings(lang, u).iter().map(|s| s.to_string()).collect();
     if let Some(o) = sp.lang(lang)["constant_pair"].as_object() {
         for (w, id) in o {
-            if id.as_u64() == Some(u.constant_id()) {
+            if id.as_u64() == Some(u.constant_id()) && !v.contains(w) {
                 v.push(w.clone());
             }
         }
